@@ -15,7 +15,8 @@
 //     address for directly exposed proxies), sniffed ClientHello / CONNECT request replayed byte-exactly.
 //  7. long-lived connections (script longidle, one extra case per server running next to the others): every proxy
 //     kind, data in both directions again 35 s after the connection was opened;
-//  8. tunnels ending in client plugins (plugin.go) next to many short compressed connections of other proxies.
+//  8. tunnels ending in client plugins (plugin.go) next to many short compressed connections of other proxies;
+//  9. route churn (churn.go): a sibling vhost route is removed and re-added, identity of the others throughout.
 //
 // Violation keys (stable identities): stream-altered-up|down, bytes-injected, cross-wired, connection-duplicated,
 // unattributed-backend-connection, orderly-close-truncated-up|down, unprompted-close, delivery-stalled,
@@ -23,7 +24,7 @@
 // server-mode|client-mode[-compressed], proxy-protocol-*, sniffed-prefix-not-replayed, tcpmux-early-data-lost,
 // tcpmux-connect-not-answered, https-tls-handshake-failed, greeting-not-delivered,
 // visitor-connection-dropped-when-backend-speaks-first, backend-connection-left-open,
-// long-lived-connection-broken-after-idle-<kind>, stream-altered-down|unprompted-close|delivery-stalled-via-client-plugin.
+// long-lived-connection-broken-after-idle-<kind>, cross-wired-after-sibling-route-removed, stream-altered-down|unprompted-close|delivery-stalled-via-client-plugin.
 package main
 
 import (
@@ -97,7 +98,7 @@ transport.maxPoolCount = 5
 
 func main() {
 	run = h.NewRun(prop, "exploration")
-	run.Rule = "case = (server option set, control transport, TLS mode, pool size; 2-3 proxies each with kind, encryption, compression, limiter side+rate, PROXY version, greeting; 3-8 (sometimes 16-36 small simultaneous) connection scripts each with payload sizes, content classes, chunkings, close order); the first cases form a greedy all-pairs covering array over the option factors, the rest are PRNG extras, plus four long-lived cases running next to the others (one per server: every proxy kind, data again in both directions 35 s after the connection was opened) and six fixed cases (compressed tunnels ending in client plugins next to many short compressed connections, on two servers; kcp without tcpMux; visitor hand-over parked at a hook while the backend speaks first, on two servers; quic streams whose last read carries data and end-of-stream through a 4 KB/s limiter on either side); distinct = distinct full case signature; every counted connection moved checked bytes or a checked close through a real frpc-frps tunnel"
+	run.Rule = "case = (server option set, control transport, TLS mode, pool size; 2-3 proxies each with kind, encryption, compression, limiter side+rate, PROXY version, greeting; 3-8 (sometimes 16-36 small simultaneous) connection scripts each with payload sizes, content classes, chunkings, close order); the first cases form a greedy all-pairs covering array over the option factors, the rest are PRNG extras, plus four long-lived cases running next to the others (one per server: every proxy kind, data again in both directions 35 s after the connection was opened) and nine (thorough: 21) fixed cases (route churn: sibling tcpmux routes told apart by routeByHTTPUser / sibling https domains plus a wildcard route, one sibling removed by frpc reload or frpc exit and re-added; compressed tunnels ending in client plugins next to many short compressed connections, on two servers; kcp without tcpMux; visitor hand-over parked at a hook while the backend speaks first, on two servers; quic streams whose last read carries data and end-of-stream through a 4 KB/s limiter on either side); distinct = distinct full case signature; every counted connection moved checked bytes or a checked close through a real frpc-frps tunnel"
 	run.Assumptions = []string{
 		"'eventually delivered' is decided as bounded progress: 60 s without a byte on a connection whose both ends are open is a stall; a close must reach the other end within 30 s",
 		"kcp is excluded from the completeness clause of orderly close (the property says reliable transports); prefix, identity and close propagation are still judged over kcp",
@@ -137,6 +138,9 @@ func main() {
 	// and two where compressed tunnels that end in client plugins (the plugin keeps the connection after its
 	// handler returned) run slow keep-alive downloads while many short compressed connections come and go
 	cases = append(cases, pluginCase(0), pluginCase(2))
+	// and route churn: two sibling routes plus a wildcard route; one sibling is removed (frpc reload or frpc exit)
+	// and re-added; the others must stay bridged to their own backends throughout
+	cases = append(cases, churnCases(run.Thorough(), run.RandFor("churn", 0))...)
 	n = len(cases)
 
 	// Long-lived connections: one case per server, started now and running next to the cases below. Each opens
@@ -315,8 +319,12 @@ type proxyRT struct {
 	reliable bool // every control transport on the path is reliable (not kcp)
 	kcpNoMux bool // a kcp control transport without stream multiplexing is on the path
 	gated    bool
-	gateHits atomic.Int64
-	early    sync.Map
+	// tcpmux / https: host the user asks for (a concrete name when the proxy's domain is a wildcard) and the
+	// user name sent in Proxy-Authorization for proxies routed by routeByHTTPUser
+	connectHost string
+	routeUser   string
+	gateHits    atomic.Int64
+	early       sync.Map
 
 	mu            sync.Mutex
 	t0            int64
@@ -326,6 +334,13 @@ type proxyRT struct {
 }
 
 func (px *proxyRT) limited() bool { return px.cfg.Limit != "" }
+
+func (px *proxyRT) host() string {
+	if px.connectHost != "" {
+		return px.connectHost
+	}
+	return px.domain
+}
 
 func (px *proxyRT) deliver(n int) {
 	if n <= 0 || !px.limited() {
@@ -354,15 +369,20 @@ type plan struct {
 	attached  atomic.Bool
 	failed    atomic.Bool
 	earlySent atomic.Bool
-	inPhase2  atomic.Bool // longidle: the second exchange (after the long idle period) has begun
-	phase2    chan struct{}
-	uGot2     chan struct{}
-	bGot2     chan struct{}
-	uGotAll   chan struct{}
-	bGotAll   chan struct{}
-	uClosed   chan struct{}
-	uDone     chan struct{}
-	bDone     chan struct{}
+	// route churn: after a sibling route was removed the connection may also be served by altPx (the wildcard
+	// proxy) or be refused, and a cross-wiring gets its own key
+	altPx        *proxyRT
+	mayRefuse    bool
+	afterRemoval bool
+	inPhase2     atomic.Bool // longidle: the second exchange (after the long idle period) has begun
+	phase2       chan struct{}
+	uGot2        chan struct{}
+	bGot2        chan struct{}
+	uGotAll      chan struct{}
+	bGotAll      chan struct{}
+	uClosed      chan struct{}
+	uDone        chan struct{}
+	bDone        chan struct{}
 
 	bUp   readRes
 	uDown readRes
@@ -385,6 +405,10 @@ func (pl *plan) userSide() (pre []byte, local, remote string) {
 	return pl.pre, pl.userLocal, pl.userRemote
 }
 
+func (pl *plan) acceptsBackend(id string) bool {
+	return id == pl.px.be.id || (pl.altPx != nil && id == pl.altPx.be.id)
+}
+
 func (pl *plan) attach() bool { return pl.attached.CompareAndSwap(false, true) }
 
 // fail reports a violation once per connection (the first report wins; the other end's follow-up
@@ -393,6 +417,9 @@ func (cs *caseState) fail(pl *plan, key string, format string, args ...any) {
 	if pl != nil {
 		if !pl.failed.CompareAndSwap(false, true) {
 			return
+		}
+		if pl.afterRemoval && key == "cross-wired" {
+			key = "cross-wired-after-sibling-route-removed"
 		}
 		if pl.inPhase2.Load() {
 			// whatever the symptom: the connection worked when it was opened and fails after having been idle
@@ -492,6 +519,10 @@ func (cs *caseState) judgeRead(pl *plan, dir string, res readRes, want int64, un
 }
 
 func runCase(c *h.Case, cc *caseCfg, sv *srvInfo) {
+	if cc.Churn != nil {
+		runChurnCase(c, cc, sv)
+		return
+	}
 	cs := &caseState{c: c, run: run, cfg: cc, sv: sv}
 	c.Data["cfg"] = cc
 	pfx := fmt.Sprintf("c%d", c.Idx)
